@@ -358,25 +358,6 @@ selectmechanism:
 	defer r.Close()
 	d := xml.NewTokenDecoder(r)
 
-	// If we're already done after the first step, decode the <success/> or
-	// <failure/> before we exit.
-	if !more {
-		tok, err := d.Token()
-		if err != nil {
-			return mask, nil, err
-		}
-		if t, ok := tok.(xml.StartElement); ok {
-			// TODO: Handle the additional data that could be returned if
-			// success?
-			_, _, err := decodeSASLChallenge(d, t, false)
-			if err != nil {
-				return mask, nil, err
-			}
-		} else {
-			return mask, nil, errUnexpectedPayload
-		}
-	}
-
 	success := false
 	for more {
 		select {
@@ -426,6 +407,26 @@ selectmechanism:
 		err = w.Flush()
 		if err != nil {
 			return mask, nil, err
+		}
+	}
+
+	// If the mechanism finished before the server signalled success (after the
+	// first step, or on a challenge) we are not authenticated yet: decode the
+	// <success/> or <failure/> before we exit.
+	if !success {
+		tok, err := d.Token()
+		if err != nil {
+			return mask, nil, err
+		}
+		if t, ok := tok.(xml.StartElement); ok {
+			// TODO: Handle the additional data that could be returned if
+			// success?
+			_, _, err := decodeSASLChallenge(d, t, false)
+			if err != nil {
+				return mask, nil, err
+			}
+		} else {
+			return mask, nil, errUnexpectedPayload
 		}
 	}
 	return Authn, session.Conn(), nil
